@@ -187,6 +187,7 @@ PROPS["C03"] = dict(
 )
 PROPS["C13"] = dict(
     title="Symbol-version queries",
+    engine="kani+mirsym",
     technique="bounded model checking (Kani/CBMC, SAT): SymbolVersionTable on sections serialised by a reference writer from a symbolic version model; query index any usize; expected-answer oracle",
     level_text="For every assignment of ids, flags, hashes, hidden bits, record counts and versym entries of the model, in each enumerated forward layout (gaps between records), the solver decides that get_requirement/get_definition return exactly the first "
                "auxiliary record / the definition whose index equals versym[i] & 0x7fff (file, name, hash, flags, names in order, hidden = bit 15), None otherwise, and Err for indexes beyond the versym table.",
@@ -194,6 +195,8 @@ PROPS["C13"] = dict(
     groups=[
         K("core", ["c13::"], functions=["SymbolVersionTable::{new,get_requirement,get_definition}", "VerNeedIterator/VerNeedAuxIterator/VerDefIterator/VerDefAuxIterator::next", "SymbolNamesIterator::next", "VersionIndex::{index,is_hidden}", "StringTable::get"],
           bounds="model 1x2 (verneed), 1x2 (verdef); versym 3 entries; symbol index any usize; byte order symbolic", timeout_s=900),
+        M(["L9"], ["C13.", "L9."], bounds="wiring through ElfBytes::symbol_version_table: section tables of 1..2 entries, every header field symbolic, both classes: the table handed out is SymbolVersionTable::new over exactly "
+          "[versym range, entsize 2], VerNeed/VerDef iterators with count = sh_info, offset 0, data = the section's range and strings = the range of shdr[sh_link]"),
         K("core", ["c13t::"], tier="thorough", functions=["same"], bounds="2 files x 2 aux, 2 defs x 2 names, interleaved / slack layouts", timeout_s=3000, cbmc_args=["--max-field-sensitivity-array-size", "160"]),
     ],
     assumptions=["reference writer in harness/core/src/c13.rs follows the GNU symbol versioning ABI record layouts"],
@@ -222,7 +225,9 @@ PROPS["C07"] = dict(
     level_note="Scope: sections not flagged SHF_COMPRESSED (property's own scoping). Not encoded (loops over the section table): section_header_by_name, symbol_table/dynamic_symbol_table/dynamic beyond their straight-line tail, symbol_version_table — outside this claim. "
                "Trusted: the summaries listed in assumptions; the executor itself (validated by seeded mutants and by replaying counterexamples natively).",
     groups=[
-        M(["L1", "L2", "L3"], ["L1.", "C07.", "L2.", "L3."], bounds="all u64 ranges / header fields; cache pre-state arbitrary under Inv; all straight-line accessors x both classes; open_stream vs minimal_parse with all header fields symbolic"),
+        M(["L1", "L2", "L3", "L7"], ["L1.", "C07.", "L2.", "L3.", "L7."], bounds="all u64 ranges / header fields; cache pre-state arbitrary under Inv; all straight-line accessors x both classes; open_stream vs minimal_parse with all header fields symbolic; "
+          "looped accessors (symbol_table, dynamic_symbol_table, dynamic, section_headers_with_strtab) on section/program tables of 1..2 entries with every header field symbolic (ELF64)"),
+        M(["L7both"], ["C07.", "L7."], tier="thorough", bounds="looped accessors, both classes"),
     ],
     assumptions=MIRSYM_ASSUME,
 )
@@ -234,7 +239,7 @@ PROPS["C08"] = dict(
                "each read_exact covers exactly the designated range after an absolute seek to its start, open performs at most the ident/tail/shdr[0]/two-table reads and clears its cache, and no panic edge (expect, index, overflow assert, unwrap) is reachable under the cache invariant.",
     level_note="Outside: allocations inside std's HashMap/Vec growth (summarised), the Vec<SectionHeader>/Vec<ProgramHeader> built by collect() (at most bytes_read/entsize entries, argued in DESIGN), looped accessors. 64-bit usize.",
     groups=[
-        M(["L1", "L2"], ["C08."], bounds="all u64 ranges / header fields; all straight-line accessors x both classes"),
+        M(["L1", "L2", "L7"], ["C08."], bounds="all u64 ranges / header fields; all straight-line accessors x both classes; looped accessors on tables of 1..2 entries"),
         M(["L3"], ["C08."], tier="thorough", bounds="open_stream with all header fields symbolic"),
     ],
     assumptions=MIRSYM_ASSUME,
@@ -248,7 +253,7 @@ PROPS["C17"] = dict(
                "and later answers are those of a fault-free stream (C07).",
     level_note="Premature EOF and short reads are the Err arm of read_exact's contract summary. Outside: looped accessors, panics inside std. 64-bit usize.",
     groups=[
-        M(["L1", "L2"], ["C17."], bounds="all fault schedules per call; all u64 ranges; all straight-line accessors x both classes"),
+        M(["L1", "L2", "L7"], ["C17."], bounds="all fault schedules per call; all u64 ranges; all straight-line accessors x both classes; looped accessors on tables of 1..2 entries"),
         M(["L3"], ["C17."], tier="thorough", bounds="open_stream under all fault schedules"),
     ],
     assumptions=MIRSYM_ASSUME,
@@ -272,7 +277,8 @@ PROPS["C18"] = dict(
 )
 PROPS["C20"] = dict(
     title="Alternative access paths agree",
-    technique="bounded model checking (Kani/CBMC, SAT): typed views vs raw bytes with a fully symbolic header argument; by-name lookup with a symbolic query on generated constant files",
+    engine="kani+mirsym",
+    technique="bounded model checking (Kani/CBMC, SAT): typed views vs raw bytes with a fully symbolic header argument, by-name lookup with a symbolic query; find_common_data vs targeted accessors by symbolic execution of their MIR with z3 (bounded tables)",
     level_text="Typed views (section_data_as_rels/relas/strtab/notes, segment_data_as_notes): for ALL header values the solver decides refusal with Unexpected{Section,Segment}Type((found, expected)) iff the type differs, and otherwise a view whose "
                "first entries equal the ABI records decodable from section_data's bytes (notes: NoteIterator over those bytes with the header's alignment). section_header_by_name: for every ASCII query of 0..3 bytes the result is the first section whose name string equals the query "
                "on a generated file with prefix/suffix/duplicate/empty/non-UTF-8 names.",
@@ -280,8 +286,10 @@ PROPS["C20"] = dict(
     groups=[
         K("core", ["c20::"], functions=["ElfBytes::section_data_as_{rels,relas,strtab,notes}", "ElfBytes::segment_data_as_notes", "ElfBytes::section_header_by_name", "section_headers_with_strtab", "ParsingIterator::next", "StringTable::get"],
           bounds="typed views: constant 128-byte files, header argument fully symbolic, first 2 entries; by-name: generated 9-section file, query 0..3 symbolic ASCII bytes; unwind 6/28", timeout_s=1200, jobs=8),
+        M(["L6", "L8"], ["C20.", "L6."], bounds="find_common_data vs symbol_table/dynamic_symbol_table/dynamic on files with section and program tables of 1..2 entries each, every header field symbolic, at most one section of each kind, "
+          "PT_DYNAMIC only together with .dynamic, no SHF_COMPRESSED (ELF64); dynamic via .dynamic == [sh_offset,sh_size) and via PT_DYNAMIC == [p_offset,p_filesz)"),
     ],
-    assumptions=["by-name queries are ASCII (valid UTF-8 by construction)"],
+    assumptions=["by-name queries are ASCII (valid UTF-8 by construction)"] + MIRSYM_ASSUME[:4],
 )
 
 _STUBS = ["std::alloc::alloc -> assert(false)", "std::alloc::alloc_zeroed -> assert(false)", "std::alloc::realloc -> assert(false)"]
@@ -326,7 +334,9 @@ PROPS["C05"] = dict(
     level_note="The byte->field decoding of the file header and of shdr[0] is an uninterpreted function here (decided byte-exactly by engine A in C02). Scoping: with e_phnum == 0xffff the property presupposes a section table (e_shoff != 0). "
                "section_headers_with_strtab (SHN_XINDEX) and the sh_entsize gates of symbol/dynamic/version tables: see the engine-B file-level lemmas (thorough).",
     groups=[
-        M(["L5", "L3"], ["C05.", "L5.", "L3."], bounds="all header fields symbolic (u16/u32/u64), file length symbolic u64; both classes; no unrolling needed (loop-free)"),
+        M(["L5", "L3", "L8"], ["C05.", "L5.", "L3.", "L8."], bounds="all header fields symbolic (u16/u32/u64), file length symbolic u64; both classes; open is loop-free; "
+          "L8 (SHN_XINDEX string table, sh_entsize gates of symtab/dynsym/.dynamic): section tables of 1..2 entries with every header field symbolic"),
+        M(["L8both", "L9"], ["C05.", "L8.", "C13.versym"], tier="thorough", bounds="L8 for both classes; .gnu.version entsize gate"),
         K("core", ["c05::"], tier="thorough", functions=["ElfBytes::minimal_parse", "find_shdrs", "find_phdrs", "SectionHeaderTable::get", "SegmentTable::get"],
           bounds="file <= 200 symbolic bytes, ELF64 LE, plain numbering; get(i) compared with the ABI record at off+i*entsize", timeout_s=3300, jobs=2),
         K("core", ["c05t::"], tier="thorough", functions=["same, extended numbering (e_shnum==0, e_phnum==0xffff), ELF32"], bounds="file <= 200 symbolic bytes", timeout_s=3300, jobs=2),
